@@ -564,6 +564,8 @@ class World:
             return self.view_ops(op, a)
         elif op == 'reset_thermo':
             S[a['x']]._reset_thermo(thermo(a['pkg']))
+        elif op == 'pickle_obj':
+            return dict(carried=bool(pickle_object(a['kind'])))
         elif op == 'flash_TP':
             x = S[a['x']]
             rows = {ph: x.imol[ph].to_array().copy() for ph in x.phases}
@@ -648,6 +650,8 @@ def random_op(universe, rng, st, ops):
         return op, dict(x=x, q=rng.choice(['H', 'S']))
     if op == 'flash_TP':
         return op, dict(x=x, T=rng.choice([300, 320, 350]), P=rng.choice([100, 200, 50]))
+    if op == 'pickle_obj':
+        return op, dict(kind=rng.choice(PICKLE_KINDS))
     if op == 'set_phases':
         return op, dict(x=x, phs=rng.choice(PHASESETS))
     if op == 'set_phase':
@@ -689,3 +693,65 @@ def random_op(universe, rng, st, ops):
     if op == 'link_with':
         return op, dict(d=x, x=y, flow=rng.random() < 0.6, phase=rng.random() < 0.5, TP=rng.random() < 0.5)
     raise KeyError(op)
+
+
+# ---- pickling of chemicals, property packages, reactions (C13): observable state before / after ----------------------------------
+PICKLE_KINDS = ['chemical', 'package', 'package_groups', 'reaction', 'reaction_tagged', 'reaction_set']
+
+
+def _chem_sig(ch):
+    vals = [ch.ID, ch.CAS, ch.phase_ref, ch.locked_state, ch.MW, ch.Hf, ch.Tb, ch.Tm, ch.Hfus, ch.S0, sorted(ch.aliases)]
+    if ch.locked_state:
+        vals += [float(ch.H(320., 101325.)), float(ch.Cn(330.))]
+    else:
+        vals += [float(ch.H('l', 320., 101325.)), float(ch.S('g', 400., 101325.)), float(ch.Cn('l', 330.)), float(ch.Psat(350.)), float(ch.V('l', 300., 101325.))]
+    return vals
+
+
+def _pkg_sig(th):
+    cc = th.chemicals
+    groups = sorted(cc.chemical_groups)
+    return [list(cc.IDs), [_chem_sig(c) for c in cc], type(th.mixture).__name__, th.Gamma.__name__, th.Phi.__name__, th.PCF.__name__,
+            groups, [cc.chemical_group_members(g) for g in groups], [[round(float(v), 12) for v in cc._group_mol_compositions[g]] for g in groups],
+            [[round(float(v), 12) for v in cc._group_wt_compositions[g]] for g in groups],
+            sorted((k, v) for k, v in cc._index.items() if isinstance(v, int))]
+
+
+def _rxn_sig(r):
+    st = r._stoichiometry
+    st = st.to_array() if hasattr(st, 'to_array') else [np.asarray(i.to_array() if hasattr(i, 'to_array') else i).tolist() for i in st]
+    out = [type(r).__name__, r._basis, np.asarray(st).tolist(), np.asarray(r.X, float).tolist(),
+           list(getattr(r, 'phases', ()) or ()), list(r.chemicals.IDs)]
+    try:
+        out.append(r.reactant if isinstance(r, tmo.Reaction) else list(r.reactants))
+    except Exception:
+        out.append('?')
+    return out
+
+
+def pickle_object(kind):
+    """True iff the loaded object shows the observable state of the pickled one"""
+    if kind == 'chemical':
+        ch = tmo.Chemical('Ethanol', phase_ref='g', cache=False)
+        ch.Hf = -200000.
+        ch.aliases.add('EtOH_custom')
+        return _chem_sig(pickle.loads(pickle.dumps(ch))) == _chem_sig(ch)
+    if kind in ('package', 'package_groups'):
+        cc = tmo.Chemicals([tmo.Chemical('Water', cache=False), tmo.Chemical('Ethanol', phase_ref='g', cache=False), tmo.Chemical('Methanol', cache=False),
+                            tmo.Chemical('Glucose', phase='s', cache=False)])
+        th = tmo.Thermo(cc, cache=False)
+        th.chemicals.set_alias('Water', 'Wasser')
+        if kind == 'package_groups':
+            th.chemicals.define_group('Alcohols', ['Ethanol', 'Methanol'], [0.3, 0.7])
+            th.chemicals.define_group('All', ['Water', 'Ethanol', 'Methanol'], [1., 2., 3.], wt=True)
+        new = pickle.loads(pickle.dumps(th))
+        return _pkg_sig(new) == _pkg_sig(th)
+    th = thermo('P')
+    if kind == 'reaction':
+        r = tmo.Reaction({'Ethanol': -1., 'Water': 2.5}, reactant='Ethanol', X=0.75, chemicals=th.chemicals, basis='wt')
+    elif kind == 'reaction_tagged':
+        r = tmo.Reaction('Ethanol,g -> 2 Water,l', reactant='Ethanol', X=0.25, chemicals=th.chemicals)
+    else:
+        r = tmo.ParallelReaction([tmo.Reaction({'Ethanol': -1., 'Water': 2.}, reactant='Ethanol', X=0.5, chemicals=th.chemicals),
+                                  tmo.Reaction({'Methanol': -1., 'Water': 1.}, reactant='Methanol', X=0.125, chemicals=th.chemicals)])
+    return _rxn_sig(pickle.loads(pickle.dumps(r))) == _rxn_sig(r)
